@@ -9,6 +9,7 @@ import (
 	"math"
 	"os"
 	"runtime"
+	"strings"
 	"sync/atomic"
 	"testing"
 	"time"
@@ -146,6 +147,36 @@ type relCase struct {
 	// (transformed -> original), otherwise original -> transformed
 	Shared  bool `json:"shared"`
 	Reverse bool `json:"reverse"`
+	// Plan: the original alignment object is produced by a drawn chain of public operations ending on
+	// Rows (internal/gen/provenance.go) instead of being freshly constructed
+	Plan *gen.Plan `json:"plan"`
+	// Extra: "" or the kind of characters outside the residues of C07's quantifier that Rows holds
+	// (RNA: every T written U; some cells replaced by one of U * . ? X): the relations are evaluated on
+	// every alignment the tree accepts - refused on both sides is a pass, accepted on one side only
+	// or accepted with other values is a violation
+	Extra string `json:"extra"`
+}
+
+// sanitized maps the extra characters to what they mean for the conditioning guard only (U = T; * . ? X
+// are no nucleotides, like the gap): it decides which pairs are too ill-conditioned to be compared,
+// never what a value should be
+func sanitized(rows []string) []string {
+	out := make([]string, len(rows))
+	for i, r := range rows {
+		b := []byte(r)
+		for j, ch := range b {
+			switch ch {
+			case 'U':
+				b[j] = 'T'
+			case 'u':
+				b[j] = 't'
+			case '*', '.', '?', 'X', 'x':
+				b[j] = '-'
+			}
+		}
+		out[i] = string(b)
+	}
+	return out
 }
 
 func genRel(t *rapid.T) relCase {
@@ -166,6 +197,38 @@ func genRel(t *rapid.T) relCase {
 	}
 	c.Shared = rapid.Bool().Draw(t, "shared-model")
 	c.Reverse = rapid.Bool().Draw(t, "transformed-first")
+	switch rapid.IntRange(0, 7).Draw(t, "extra-characters") {
+	case 5:
+		c.Extra = rapid.SampledFrom([]string{"rna", "rna-some-rows", "sprinkle"}).Draw(t, "extra-kind")
+		ch := rapid.SampledFrom([]byte("UU*.?X")).Draw(t, "extra-char")
+		for i := range c.Rows {
+			b := []byte(c.Rows[i])
+			some := rapid.Bool().Draw(t, "this-row")
+			for j := range b {
+				switch c.Extra {
+				case "rna", "rna-some-rows":
+					if c.Extra == "rna" || some {
+						if b[j] == 'T' {
+							b[j] = 'U'
+						} else if b[j] == 't' {
+							b[j] = 'u'
+						}
+					}
+				default:
+					if rapid.IntRange(0, 9).Draw(t, "sprinkle") == 4 {
+						b[j] = ch
+					}
+				}
+			}
+			c.Rows[i] = string(b)
+		}
+		if c.Extra == "sprinkle" {
+			c.Extra += ":" + string(ch)
+		}
+	case 2, 6:
+		pl := gen.DrawPlan(t, distrun.Ali(c.Rows), "ACGT-", 3)
+		c.Plan = &pl
+	}
 	return c
 }
 
@@ -200,9 +263,27 @@ func checkRel(c relCase) (o pbt.Outcome, err error) {
 	l := len(c.Rows[0])
 	opt := c.Opt
 	compute := computer(opt, c.Shared)
-	base, e := compute(c.Rows, opt, c.Threads[0])
-	if e != nil {
+	var base [][]float64
+	var e error
+	if c.Plan != nil {
+		if obj, usable := gen.BuildVia(distrun.Ali(c.Rows), *c.Plan); usable {
+			base, e = distrun.Matrix(obj, opt, false, c.Threads[0])
+			for _, k := range c.Plan.Kinds() {
+				o.Class("provenance:%s", k)
+			}
+		} else {
+			o.Class("provenance-unusable")
+			base, e = compute(c.Rows, opt, c.Threads[0])
+		}
+	} else {
+		base, e = compute(c.Rows, opt, c.Threads[0])
+	}
+	refused := e != nil
+	if refused && c.Extra == "" {
 		return o, fmt.Errorf("DistMatrix fails: %v", e)
+	}
+	if c.Extra != "" {
+		o.Class("extra characters (%s): %s", c.Extra, map[bool]string{true: "refused", false: "accepted"}[refused])
 	}
 	if c.Shared {
 		if c.Reverse {
@@ -211,7 +292,7 @@ func checkRel(c relCase) (o pbt.Outcome, err error) {
 			o.Class("one-model-object: original then transformed")
 		}
 	}
-	st, clean, extra := refdist.StatusesTol(c.Rows, opt)
+	st, clean, extra := refdist.StatusesTol(sanitized(c.Rows), opt)
 	internal := (opt.Model == refdist.Raw || opt.Model == refdist.PDist) && opt.GapMut == refdist.GapInternal
 	raw := opt.Model == refdist.Raw
 	differs := false
@@ -233,20 +314,29 @@ func checkRel(c relCase) (o pbt.Outcome, err error) {
 	if len(c.Rows) >= 46 {
 		o.Class("46-80 sequences (> 1024 pairs)")
 	}
+	errSkip := fmt.Errorf("relation not applicable")
 
 	// transformed alignment: rows built directly, or through the goalign API
 	transformed := func(cols []int, revcomp bool) ([]string, error) {
-		want := refdist.SelectColumns(c.Rows, cols)
-		if revcomp {
+		var want []string
+		if revcomp && c.Extra != "" {
+			want = nil // the harness has no complement for these characters: goalign's own, unverified
+		} else if revcomp {
 			want = refdist.RevComp(c.Rows)
+		} else {
+			want = refdist.SelectColumns(c.Rows, cols)
 		}
-		if !c.ViaAPI {
+		if !c.ViaAPI && want != nil {
 			return want, nil
 		}
 		al := gen.MustBuild(distrun.Ali(c.Rows))
 		var res align.Alignment = al
 		if revcomp {
 			if e := al.ReverseComplement(); e != nil {
+				if c.Extra != "" {
+					o.Class("extra characters: ReverseComplement refuses")
+					return nil, errSkip
+				}
 				return nil, fmt.Errorf("ReverseComplement: %v", e)
 			}
 		} else {
@@ -257,7 +347,7 @@ func checkRel(c relCase) (o pbt.Outcome, err error) {
 			res = sub
 		}
 		got := rowsOf(res)
-		if !sameStrings(got, want) {
+		if want != nil && !sameStrings(got, want) {
 			// a defect of the transformation is the business of C04/C06, not of this property
 			return nil, fmt.Errorf("harness: the goalign transformation does not give the expected rows: %v want %v", got, want)
 		}
@@ -265,6 +355,22 @@ func checkRel(c relCase) (o pbt.Outcome, err error) {
 	}
 	relation := func(name string, rows []string, ropt refdist.Options, scale float64, perm []int, threads int) error {
 		m, e := compute(rows, ropt, threads)
+		if c.Extra != "" {
+			if name == "reverse-complement" && (e != nil || refused) {
+				// U is not closed under goalign's complement (U -> A, A -> T): one side may hold a
+				// refused character that the other does not; the relation speaks when both are accepted
+				o.Class("relation:%s (a side refused)", name)
+				return nil
+			}
+			if (e != nil) != refused {
+				return fmt.Errorf("%s: alignment with characters outside A,C,G,T,IUPAC,'-' (%s): the original is %s but the transformed alignment is %s (%v)", name, c.Extra,
+					map[bool]string{true: "refused", false: "accepted"}[refused], map[bool]string{true: "refused", false: "accepted"}[e != nil], e)
+			}
+			if refused {
+				o.Class("relation:%s (refused on both sides)", name)
+				return nil
+			}
+		}
 		if e != nil {
 			return fmt.Errorf("%s: DistMatrix fails: %v", name, e)
 		}
@@ -329,15 +435,17 @@ func checkRel(c relCase) (o pbt.Outcome, err error) {
 		}
 		// reverse complement
 		rows, e = transformed(nil, true)
-		if e != nil {
+		if e != nil && e != errSkip {
 			return o, e
 		}
 		vopt := opt
 		vopt.Weights = refdist.SelectWeights(opt.Weights, refdist.Reversed(l))
-		if e := relation("reverse-complement", rows, vopt, 1, nil, c.Threads[4]); e != nil {
-			return o, e
+		if e == nil {
+			if e := relation("reverse-complement", rows, vopt, 1, nil, c.Threads[4]); e != nil {
+				return o, e
+			}
 		}
-		if c.ViaAPI {
+		if c.ViaAPI && e == nil && !refused {
 			// history on ONE alignment object: matrix, ReverseComplement() in place, matrix again
 			obj := gen.MustBuild(distrun.Ali(c.Rows))
 			m0, e := distrun.Matrix(obj, opt, false, c.Threads[0])
@@ -386,7 +494,7 @@ func checkRel(c relCase) (o pbt.Outcome, err error) {
 	if e := relation("row-permutation", prow, opt, 1, c.RowPerm, c.Threads[6]); e != nil {
 		return o, e
 	}
-	o.NonTrivial = differs && hasFiniteNonZero(base)
+	o.NonTrivial = differs && !refused && hasFiniteNonZero(base)
 	return o, nil
 }
 
@@ -400,6 +508,8 @@ type thrCase struct {
 	Tier int             `json:"tier"`
 	// Shared: one model object for all thread counts
 	Shared bool `json:"shared"`
+	// Plan: the alignment objects are produced by a drawn chain of public operations ending on Rows
+	Plan *gen.Plan `json:"plan"`
 }
 
 func genThr(t *rapid.T) thrCase {
@@ -414,12 +524,27 @@ func genThr(t *rapid.T) thrCase {
 	}
 	c.Opt = refdist.GenOptions(t, len(c.Rows), len(c.Rows[0]), true, true)
 	c.Shared = rapid.Bool().Draw(t, "shared-model")
+	if rapid.IntRange(0, 3).Draw(t, "provenance") == 2 {
+		pl := gen.DrawPlan(t, distrun.Ali(c.Rows), "ACGT-", 3)
+		c.Plan = &pl
+	}
 	return c
 }
 
 func checkThr(c thrCase) (o pbt.Outcome, err error) {
 	var first [][]float64
 	compute := computer(c.Opt, c.Shared)
+	if c.Plan != nil && !c.Shared {
+		if _, usable := gen.BuildVia(distrun.Ali(c.Rows), *c.Plan); usable {
+			compute = func(rows []string, o refdist.Options, threads int) ([][]float64, error) {
+				obj, _ := gen.BuildVia(distrun.Ali(rows), *c.Plan)
+				return distrun.Matrix(obj, o, false, threads)
+			}
+			o.Class("provenance: %d steps", len(c.Plan.Steps))
+		} else {
+			o.Class("provenance-unusable")
+		}
+	}
 	if c.Shared {
 		o.Class("one-model-object")
 	}
@@ -762,8 +887,9 @@ type cliCase struct {
 	Tier int             `json:"tier"`
 	// Second: another alignment with its own number of rows, in the same phylip file (before or after
 	// Rows); the ranges then have minima inside the smaller one and maxima possibly beyond it
-	Second      []string `json:"second"`
-	SecondFirst bool     `json:"second_first"`
+	Second      []string   `json:"second"`
+	SecondFirst bool       `json:"second_first"`
+	Layout      cli.Layout `json:"layout"` // presentation of the FASTA input
 }
 
 func TestCLI(t *testing.T) {
@@ -778,6 +904,7 @@ func TestCLI(t *testing.T) {
 		if !c.Opt.Gamma {
 			c.Opt.Alpha = 0
 		}
+		c.Layout = cli.DrawLayout(t)
 		if rapid.IntRange(0, 2).Draw(t, "two-alignments") == 0 {
 			c.Second, _ = refdist.GenRows(t, 2, 12, 30, c.Tier)
 			c.SecondFirst = rapid.Bool().Draw(t, "second-first")
@@ -799,7 +926,10 @@ func TestCLI(t *testing.T) {
 		var in string
 		extra := []string{}
 		if c.Second == nil {
-			in = cli.TempFile(dir, ".fa", cli.Fasta(distrun.Ali(c.Rows).Rows))
+			in = cli.TempFile(dir, ".fa", cli.FastaLayout(distrun.Ali(c.Rows).Rows, c.Layout))
+			if !c.Layout.Plain() {
+				o.Class("fasta input in another layout")
+			}
 		} else {
 			inputs = [][]string{c.Rows, c.Second}
 			if c.SecondFirst {
@@ -969,6 +1099,104 @@ func TestCLITwoAlignments(t *testing.T) {
 			o.Class("transformed-first")
 		} else {
 			o.Class("original-first")
+		}
+		return o, nil
+	})
+}
+
+// ---- command line: one alignment of a multi-alignment input cannot be computed ----------------------------
+
+type cliFailCase struct {
+	Alis    [][]string      `json:"alis"` // 2-4 alignments of one phylip file, all computable
+	Opt     refdist.Options `json:"opt"`
+	BadAt   int             `json:"bad_at"`   // the alignment that is made uncomputable
+	BadKind string          `json:"bad_kind"` // how
+	Threads int             `json:"threads"`
+}
+
+// TestCLIFailingAlignment: "the computation always returns - with the error if a model evaluation fails" at
+// the level of the command: when one alignment of the input (first, middle or last) cannot be computed, the
+// exit status reports it; the same file with that alignment intact gives status 0 and one matrix per alignment
+func TestCLIFailingAlignment(t *testing.T) {
+	if cli.Binary() == "" {
+		t.Skip("no goalign binary")
+	}
+	dir := cli.TempDir("c08clifail")
+	pbt.Run(t, func(t *rapid.T) cliFailCase {
+		var c cliFailCase
+		n := rapid.IntRange(2, 4).Draw(t, "alignments")
+		tier := rapid.IntRange(0, 2).Draw(t, "tier")
+		for k := 0; k < n; k++ {
+			rows, _ := refdist.GenRows(t, 3, 8, 20, tier)
+			c.Alis = append(c.Alis, rows)
+		}
+		c.Opt = refdist.GenOptions(t, 3, len(c.Alis[0][0]), false, false)
+		if !c.Opt.Gamma {
+			c.Opt.Alpha = 0
+		}
+		c.BadAt = rapid.IntRange(0, n-1).Draw(t, "bad-at")
+		c.BadKind = rapid.SampledFrom([]string{"rna-U", "question-mark", "protein", "fewer-rows-than-the-range-minimum"}).Draw(t, "bad-kind")
+		if c.BadKind == "fewer-rows-than-the-range-minimum" {
+			c.Opt.Ranges = []int{2, 7, 0, 7} // every alignment has >= 3 rows; the bad one gets 2
+		}
+		c.Threads = rapid.SampledFrom([]int{1, 2, 4}).Draw(t, "threads")
+		return c
+	}, func(c cliFailCase) (o pbt.Outcome, err error) {
+		file := func(alis [][]string) string {
+			text := ""
+			for _, rows := range alis {
+				text += phylipText(gen.SimpleNames(len(rows)), rows)
+			}
+			return cli.TempFile(dir, ".phy", text)
+		}
+		bad := make([][]string, len(c.Alis))
+		copy(bad, c.Alis)
+		b := append([]string{}, c.Alis[c.BadAt]...)
+		switch c.BadKind {
+		case "rna-U": // a character no nucleotide model encodes ("no index for character")
+			b[0] = "U" + b[0][1:]
+		case "question-mark":
+			b[len(b)-1] = b[len(b)-1][:len(b[0])-1] + "?"
+		case "protein": // E, Q, L: not a nucleotide alignment
+			b[0] = "E" + b[0][1:]
+			b[1] = b[1][:len(b[1])-1] + "Q"
+		case "fewer-rows-than-the-range-minimum":
+			b = b[:2]
+		}
+		bad[c.BadAt] = b
+		good, broken := file(c.Alis), file(bad)
+		defer os.Remove(good)
+		defer os.Remove(broken)
+		// control: every alignment intact
+		args := append(distrun.Args(c.Opt, good, c.Threads), "-p")
+		r := cli.Run("", args...)
+		if r.TimedOut || r.Exit != 0 {
+			return o, fmt.Errorf("goalign %v on %d computable alignments: exit %d (timed out %v), stderr %q", args, len(c.Alis), r.Exit, r.TimedOut, r.Stderr)
+		}
+		if _, mats, perr := distrun.ParseMatrices(r.Stdout); perr != nil || len(mats) != len(c.Alis) {
+			return o, fmt.Errorf("goalign %v: %d alignments but the output is not as many matrices (%v)\n%s", args, len(c.Alis), perr, r.Stdout)
+		}
+		// one alignment cannot be computed
+		args = append(distrun.Args(c.Opt, broken, c.Threads), "-p")
+		r = cli.Run("", args...)
+		if r.TimedOut {
+			return o, fmt.Errorf("goalign %v did not return", args)
+		}
+		if r.Exit == 0 {
+			return o, fmt.Errorf("goalign %v: alignment %d of %d cannot be computed (%s) but the exit status is 0; stdout:\n%s\nstderr: %q", args, c.BadAt+1, len(c.Alis), c.BadKind, r.Stdout, r.Stderr)
+		}
+		if strings.TrimSpace(r.Stderr) == "" {
+			return o, fmt.Errorf("goalign %v: exit %d without any message", args, r.Exit)
+		}
+		o.NonTrivial = true
+		o.Class("uncomputable alignment: %s", c.BadKind)
+		switch {
+		case c.BadAt == 0:
+			o.Class("position: first")
+		case c.BadAt == len(c.Alis)-1:
+			o.Class("position: last")
+		default:
+			o.Class("position: middle")
 		}
 		return o, nil
 	})
